@@ -731,6 +731,10 @@ class Run:
             state = self.probe(ds)
             h = self.hist[ds.name]
             if h[-1][1] != state:
+                if h[-1][1] and not state:
+                    # "absent or complete" allows it, so it is no violation - but a complete entry that goes away
+                    # (an unlink before the replacement is in place) makes concurrent readers go to the network
+                    self.stats["probe:complete-entry-became-absent"] += 1
                 h.append((self.sim.step, state))
 
     def on_step(self, a, performed):
